@@ -7,6 +7,7 @@ import (
 	"time"
 
 	"github.com/nulab/autog/internal/graph"
+	"github.com/nulab/autog/internal/verifhook"
 )
 
 type greedyProcessor struct {
@@ -34,6 +35,9 @@ func execGreedy(g *graph.DGraph, params graph.Params) {
 		arcdiag: graph.NodeIntMap{},
 		outdeg:  graph.NodeIntMap{},
 		indeg:   graph.NodeIntMap{},
+	}
+	if seed, ok := verifhook.GreedySeed(); ok {
+		p.rnd = rand.New(rand.NewSource(seed))
 	}
 
 	var (
